@@ -208,6 +208,16 @@ try:
                 C.judge("honest-zone", pol(1), xml=ksrxml.render_ksr(req), desc={"TZ": tz or "(unset)", "timestamps": suffix or "no offset"}, built="accept")
                 r2 = clone(req); r2["bundles"][0]["sigs"][0]["exp"] = r2["bundles"][0]["sigs"][0]["exp"] + D(hours=5)
                 C.judge("zone-expiration-shifted", pol(1), xml=ksrxml.render_ksr(r2), desc={"TZ": tz or "(unset)"}, built="reject")
+    # key material is octets: a modulus that ends in 0x09 / 0x0b / 0x0d (or an ECDSA key whose octets begin or end with such values) is an ordinary key
+    WS = [ksrxml.mk_key(P.rsa_ending(0x0D), alg=8, ident="ZSK-mod-ends-0d"), ksrxml.mk_key(P.rsa_ending(0x09), alg=8, ident="ZSK-mod-ends-09"),
+          ksrxml.mk_key(P.rsa_ending(0x0B), alg=10, ident="ZSK-mod-ends-0b")]
+    P.save()
+    for k in WS:
+        other = R.choice([x for x in KEYS if x["alg"] == k["alg"]])
+        C.judge("honest-key-ending-in-whitespace-octet", pol(1), xml=ksrxml.render_ksr(request([[k]])), desc={"last_octet": hex(k["pub"][-1])}, built="accept")
+        C.judge("honest-key-ending-in-whitespace-octet", pol(2), xml=ksrxml.render_ksr(request([[k, other], [other, k]])), desc={"last_octet": hex(k["pub"][-1])}, built="accept")
+        r2 = clone(request([[k]])); r2["bundles"][0]["keys"][0]["pub"] = k["pub"][:-1]
+        C.judge("whitespace-octet-dropped-from-key", pol(1), xml=ksrxml.render_ksr(r2), strict=False, built="reject")
     # a signature is the octet string, not the integer: an RSA signature that starts with a zero octet, handed in with that octet dropped
     # (or padded with one more), is a changed signature
     rk = [k for k in KEYS if k["alg"] in (8, 10)][:3]
